@@ -661,6 +661,43 @@ fn misc_case(ctx: &mut Ctx, case: u64, rng: &mut Rng) {
             return;
         }
     }
+    // textual forms of keys and ids: Display -> FromStr round trip, arbitrary strings never panic
+    {
+        use iroh_docs::{AuthorId as A, NamespaceId as N};
+        let a = Author::from_bytes(&rng.fill32());
+        let n = NamespaceSecret::from_bytes(&rng.fill32());
+        ctx.count("key_text_round_trips", 1);
+        let ok = guard(ctx, case, "key-text-parser", &[], || {
+            A::from_str(&a.id().to_string()).ok() == Some(a.id())
+                && N::from_str(&n.id().to_string()).ok() == Some(n.id())
+                && Author::from_str(&a.to_string()).map(|x| x.to_bytes()).ok() == Some(a.to_bytes())
+                && NamespaceSecret::from_str(&n.to_string()).map(|x| x.to_bytes()).ok() == Some(n.to_bytes())
+                && !a.id().fmt_short().is_empty()
+                && !n.id().fmt_short().is_empty()
+        });
+        match ok {
+            None => return,
+            Some(false) => {
+                ctx.violation(case, "key-text-round-trip-differs", json!({"author": a.id().to_string(), "namespace": n.id().to_string()}));
+                return;
+            }
+            Some(true) => {}
+        }
+        for _ in 0..40 {
+            let n = rng.below(80);
+            let junk: String = (0..n).map(|_| b"0123456789abcdefghijklmnopqrstuvwxyzABCDEF=+/ -_"[rng.below(48)] as char).collect();
+            if guard(ctx, case, "key-text-parser", junk.as_bytes(), || {
+                let _ = A::from_str(&junk);
+                let _ = N::from_str(&junk);
+                let _ = Author::from_str(&junk);
+                let _ = NamespaceSecret::from_str(&junk);
+            })
+            .is_none()
+            {
+                return;
+            }
+        }
+    }
     // policy round trip
     let p = crate::props::c15::real(&crate::props::c15::gen_policy(rng));
     let enc = postcard::to_stdvec(&p).unwrap();
